@@ -410,3 +410,109 @@ def repro_determine_bpi():
     keys = sorted(back.keys())
     intact = any(getattr(fr, "owner", None) == "b" and fr.data == b.data for fr in back.values())
     return len(area), answer, len(keys), intact
+
+
+# ---------------------------------------------------------------------------------------------------------------------
+# C06, load: `ID3(fileobj)` and the bare `ID3FileType(fileobj)` as the programs `loadM` / `fileTypeLoadM`
+# (Model/Container/Id3FileLoadM.lean, driver `id3f op=loadm`) under faults and short reads
+
+def run_load_faults(ctx):
+    """generated files (well-formed layouts, damaged / extended headers, look-alike tails) x {ID3, ID3FileType, ID3(load_v1=False)} x (an
+    IOError at every call index) x (short reads 0 / 1 / n//2 / n-1 at every read): the real constructor on FaultFile vs the Lean program —
+    outcome class, the sequence of file-object calls, file untouched, object not closed.  Returns the number of compared runs."""
+    import errno
+    from fobj import FaultFile
+    from mutagen import id3 as I, MutagenError
+    rng = ctx.rng
+    jobs = []
+    seen = set()
+
+    def violation(key, what, case, li):
+        if (key, li) not in seen:
+            seen.add((key, li)); ctx.violation(key, what, case)
+
+    for li in range(ctx.budget(80, 700)):
+        data, desc = gen_layout(rng) if rng.random() < 0.5 else gen_file(rng)
+        cls = rng.choice(["id3", "id3", "filetype", "id3-nov1"])
+        def go(f):
+            if cls == "filetype":
+                return I.ID3FileType(f)
+            return I.ID3(f, load_v1=(cls != "id3-nov1"))
+        base = "id3f op=loadm data=%s cls=%s v1=%d" % (hx(data), "filetype" if cls == "filetype" else "id3", 0 if cls == "id3-nov1" else 1)
+        ref = FaultFile(data)
+        k0, r0 = timed(lambda: go(ref), 20)
+        ncalls = ref.calls; ref_log = list(ref.log)
+        plans = [("none", None, None)] + [("io", i, "io") for i in range(ncalls)]
+        for i, l in enumerate(ref_log):
+            if l.startswith("r") and l[1:].isdigit() and int(l[1:]) > 0:
+                for kk in sorted({0, 1, int(l[1:]) // 2, int(l[1:]) - 1}):
+                    if kk < int(l[1:]):
+                        plans.append(("short", i, kk))
+        for fk, a, b in plans:
+            if fk == "io":
+                f = FaultFile(data, fail_at=a); env = " fail=%d:io" % a
+            elif fk == "short":
+                f = FaultFile(data, short=(a, b)); env = " short=%d:%d" % (a, b)
+            else:
+                f = FaultFile(data); env = ""
+            k, r = timed(lambda: go(f), 20)
+            case = dict(desc, op="load", cls=cls, fault=fk, at=a, arg=b, data=hx(data) if len(data) < 1200 else "len=%d" % len(data))
+            if k == "hang":
+                violation("id3file:load:hang", "did not finish", case, li); continue
+            if k == "ok":
+                tags = r.tags if cls == "filetype" else r
+                st = "ok:notags" if tags is None else ("ok:v1" if tags.version == (1, 1) else "ok:v2")
+            elif isinstance(r, I.ID3NoHeaderError):
+                st = "noheader"
+            elif isinstance(r, I.ID3UnsupportedVersionError):
+                st = "unsupported"
+            elif isinstance(r, MutagenError):
+                st = "err:mutagen"
+            elif isinstance(r, NotImplementedError):
+                st = "err:frames"       # raised by the frame parser on the bytes read (compressed frames): not a file-object matter
+            else:
+                st = "err:" + ERR.get(type(r).__name__, type(r).__name__)
+            ctx.case(key=("id3file-load", cls, li, fk, a, b), nontrivial=(fk != "none"), modelled=True)
+            ctx.hist["id3file-load:%s:%s:%s" % (cls, fk, st)] += 1
+            jobs.append((base + env, st, list(f.log), case))
+            # ---- C06 on the real outcome
+            if f.getvalue() != data:
+                violation("id3file:load:file-modified", "load changed the file", case, li)
+            if f.closed_called:
+                violation("id3file:load:closes-caller-file", "close() was called on the caller's file object", case, li)
+            if st.startswith("err:") and st not in ("err:mutagen", "err:frames"):
+                key = "escape:ValueError:_util.py:verify_fileobj" if (st == "err:value" and str(r).startswith("Can't ")) else \
+                    "escape:%s:id3file:load" % type(r).__name__
+                violation(key, "%s escaped from %s (%s at %s): %s" % (type(r).__name__, cls, fk, a, str(r)[:80]), case, li)
+            if fk != "none" and k == "ok" and k0 == "ok":
+                # the call returned normally although a read was short / failed: did it see the same tag as the clean run?
+                t0 = ref_result = None
+                clean = go(FaultFile(data)); t0 = clean.tags if cls == "filetype" else clean
+                t1 = r.tags if cls == "filetype" else r
+                same = (t0 is None) == (t1 is None) and (t0 is None or (sorted(t0.keys()) == sorted(t1.keys()) and t0.version == t1.version))
+                if not same:
+                    violation("undetected:%s:%s" % (fk, f.fault_site), "load returned normally after the fault with other tags than the clean run", case, li)
+    if ctx.model_ok() and jobs:
+        answers = ctx.driver.ask([j[0] for j in jobs])
+        for (line, st, log, case), ans in zip(jobs, answers):
+            ctx.traces_validated += 1
+            mst, mf = parse_fields(ans)
+            r = mf.get("r", "")
+            if mst == "ok":
+                cls = case["cls"]
+                m = {"noheader": "ok:notags" if cls == "filetype" else "noheader", "unsupported": "unsupported"}.get(r)
+                if m is None:
+                    m = "ok:v1" if r.startswith("v1:") else "ok:v2"
+            else:
+                m = mst
+            mlog = [] if mf.get("log", "-") == "-" else mf["log"].split(",")
+            if st == "err:frames":
+                ctx.hist["id3file-load:frame-parser-raised"] += 1
+                if not _same_log(mlog, log):
+                    ctx.disagree("id3 load: sequence of file-object calls", case, model=",".join(mlog)[:300], impl=",".join(log)[:300])
+                continue
+            if m != st:
+                ctx.disagree("id3 load under faults", case, model=ans[:200], impl=st)
+            elif not _same_log(mlog, log):
+                ctx.disagree("id3 load: sequence of file-object calls", case, model=",".join(mlog)[:300], impl=",".join(log)[:300])
+    return len(jobs)
